@@ -50,7 +50,25 @@ def run_in_process(mod, ctx: Ctx):
         from spverif.san.reach import Reach
         reach = Reach(os.path.abspath(repo_mod.REPO).rstrip("/") + "/")
         reach.install()
-    mod.run(ctx)
+    try:
+        mod.run(ctx)
+    except Exception as e:  # noqa: BLE001
+        # A step the workload expected to succeed raised.  If the exception was raised by the code under test it is a
+        # violation witness (the workload only performs operations the property says are valid); if it comes from the
+        # harness itself the run is inconclusive, never "held".
+        import traceback
+        from spverif.core.util import raise_site, tb_tail
+        tb = traceback.extract_tb(e.__traceback__)
+        inner = tb[-1].filename if tb else ""
+        root = os.path.abspath(repo_mod.REPO).rstrip("/") + "/"
+        if inner.startswith(root):
+            ctx.fail("workload", "valid_operation_raised", f"{type(e).__name__}@{raise_site(e)}", None, error=repr(e), traceback=tb_tail(e, 8))
+        else:
+            ctx.inconc(f"harness error {type(e).__name__}: {e!r} at {tb[-1].filename.split('/')[-1] if tb else '?'}:{tb[-1].lineno if tb else 0}")
+            sys.stderr.write(tb_tail(e, 10))
+    if getattr(mod, "SCRIBBLE", False):
+        from spverif.san import scribble
+        scribble.report(ctx)
     if reach is not None:
         ctx.extra["reach_calls_per_anchored_function_capped"] = reach.entered(set(files))
         ctx.extra["reach_lines_hit"] = reach.lines_hit(set(files))
@@ -75,6 +93,9 @@ def main(argv=None) -> int:
         with open(a.replay) as f:
             rec = json.load(f)
         n = 0
+        if getattr(mod, "SCRIBBLE", False):
+            from spverif.san import scribble
+            scribble.install()
         for w in rec["witnesses"]:
             case = w.get("case")
             if not case or "k" not in case:
